@@ -7,12 +7,12 @@ Record presp := mkPresp { pr_version : list N; pr_status : N; pr_reason : list N
 Inductive rpres (A : Type) := POk (a : A) | PErr | PPanicCL | PPanicIdx.
 Arguments POk {A}. Arguments PErr {A}. Arguments PPanicCL {A}. Arguments PPanicIdx {A}.
 
-(* str::parse::<iN>(): optional sign *)
+(* str::parse::<iN>(): optional sign; "-0" is the integer 0, so the sign flag is set only for a non-zero magnitude *)
 Definition parse_signed (bound : N) (s : list N) : option (bool * N) :=     (* (negative?, magnitude) *)
   let '(neg, body) := match s with 45 :: r => (true, r) | 43 :: r => (false, r) | _ => (false, s) end in
   match body with [] => None | _ =>
   match digits_val 0 body with
-  | Some v => if neg then (if N.leb v bound then Some (true, v) else None) else (if N.ltb v bound then Some (false, v) else None)
+  | Some v => if neg then (if N.leb v bound then Some (negb (N.eqb v 0), v) else None) else (if N.ltb v bound then Some (false, v) else None)
   | None => None end end.
 Definition parse_i16 := parse_signed (2 ^ 15).
 Definition parse_i64 := parse_signed (2 ^ 63).
